@@ -337,9 +337,11 @@ func triggerNodeScenario(r *Run) {
 		return d == "", d
 	}
 	nOut := 0
+	var firstRun []string
 	produce := func(ctx execution.ProduceContext, rec execution.Record) error {
 		r.SinkLog("  out %s", Msg{Kind: MsgRec, Values: rec.Values, Retr: rec.Retraction, ET: rec.EventTime})
 		nOut++
+		firstRun = append(firstRun, Msg{Kind: MsgRec, Values: rec.Values, Retr: rec.Retraction, ET: rec.EventTime}.String())
 		ks := RowKey([]octosql.Value{rec.Values[0], rec.Values[1]})
 		if statesSeen[ks] == nil {
 			statesSeen[ks] = []string{stateOf(ks)}
@@ -407,6 +409,7 @@ func triggerNodeScenario(r *Run) {
 	metaSend := func(ctx execution.ProduceContext, msg execution.MetadataMessage) error {
 		r.SinkLog("  out wm(%s)", Sec(msg.Watermark))
 		nOut++
+		firstRun = append(firstRun, "wm("+Sec(msg.Watermark)+")")
 		if cfg.watermark {
 			for _, ks := range keyOrder {
 				k := keys[ks]
@@ -452,6 +455,33 @@ func triggerNodeScenario(r *Run) {
 	if err != nil {
 		r.Violate("C17", "run_error", attrs, "group by failed on a valid changelog: %v", err)
 		return
+	}
+	// A materialised node may be run again (LOOKUP JOIN re-runs its joined side once per outer
+	// record): a second run over the same input must emit exactly what the first did.
+	if !r.Failed() {
+		src.OnDeliver, src.OnEOS = nil, nil
+		var secondRun []string
+		var err2 error
+		func() {
+			defer func() {
+				if p := recover(); p != nil {
+					err2 = fmt.Errorf("panic: %v", p)
+				}
+			}()
+			err2 = node.Run(execution.ExecutionContext{Context: bubbleCtx()},
+				func(ctx execution.ProduceContext, rec execution.Record) error {
+					secondRun = append(secondRun, Msg{Kind: MsgRec, Values: rec.Values, Retr: rec.Retraction, ET: rec.EventTime}.String())
+					return nil
+				},
+				func(ctx execution.ProduceContext, msg execution.MetadataMessage) error {
+					secondRun = append(secondRun, "wm("+Sec(msg.Watermark)+")")
+					return nil
+				})
+		}()
+		if err2 != nil || strings.Join(firstRun, " ") != strings.Join(secondRun, " ") {
+			r.Violate("C17", "rerun_differs", attrs, "running the same group-by node a second time over the same input emits a different sequence (err=%v): first %v, second %v",
+				err2, truncateList(firstRun, 12), truncateList(secondRun, 12))
+		}
 	}
 	// end of stream: every key holds its final result
 	for _, ks := range keyOrder {
